@@ -32,6 +32,9 @@ from pvc import src as S, kern as K, ev as E, classes as CL, symdict as SD, twin
 from pvc.val import *  # noqa
 from pvc import val as V
 
+# property-level native oracle used as the replay of refuted obligations that carry no model-specific replay
+FALLBACK_REPLAY = {"handler": "bounded_any", "input": {"what": "create_functions"}, "expected": "creation wiring / atomicity / bulk = single / std type = parameters on the native net"}
+
 CR = "pandapipes.create"
 CT = "pandapipes.component_models.component_toolbox"
 
@@ -609,7 +612,9 @@ def native_bounded(ctx):
     res = venv_run("bounded.py", {"what": "create_functions"}, timeout=1500)["checks"]
     scope = ("28 create functions on one populated water net (4 junctions, 2 pipes, 1 sink): every junction / pipe / std-type "
              "argument replaced by a missing reference, duplicate index, bulk (2 rows, empty and populated table) against two "
-             "single calls, every library pipe type against create_pipe_from_parameters with the type's parameters")
+             "single calls, every library pipe type against create_pipe_from_parameters with the type's parameters; explicit "
+             "k_mm / u_w_per_m2k overrides (0 and non-zero) on 4 pipe types through create_pipe and create_pipes followed by a second "
+             "pipe of the same type; ext grids with p_bar / t_k in {0, None, NaN, value}")
     for k, v in res.items():
         ctx.bounded(k, v["ok"], scope=scope, cases=v["cases"], witness=v.get("witness"),
                     replay={"handler": "bounded_named", "input": {"what": "create_functions", "check": k}} if not v["ok"] else None)
